@@ -9,11 +9,13 @@ CONSTANTS
   MaxRtx = 3
   MaxT1 = 2
   Win = 2
+  Rwnd = 9
+  DelaySack = FALSE
   Deviations = {}
   NetMode = "fifo"
   Budget = 1
   Props = {"C01", "C12", "C13"}
-INVARIANTS TypeOK PrefixDelivery OneToOne OpenOnce OpenBeforeMessage ConsecutiveTsn WindowRespected
+INVARIANTS TypeOK PrefixDelivery OneToOne OpenOnce OpenBeforeMessage ConsecutiveTsn WindowRespected NewDataWithinWindow
 PROPERTIES SetupIdempotent EventuallyDelivered
 ACTION_CONSTRAINT NoEmit
 CHECK_DEADLOCK FALSE
